@@ -190,7 +190,12 @@ def analyse_output(text):
                 if "panic" in ln:
                     f = {"key": "panic", "message": ln.strip()[:3000]}
                 elif "flaky" in ln:
-                    f = {"key": "flaky", "message": "rapid could not reproduce a failure (schedule/time dependent): " + " ".join(lines[i:i + 6])[:3000]}
+                    ctx = " ".join(lines[i:i + 6])
+                    if re.search(r"Original traceback \(harness:", ctx):
+                        # the failure rapid could not reproduce was an infrastructure failure of the harness
+                        f = {"key": "harness", "message": ("not reproducible: " + ctx)[:3000], "infra": True}
+                    else:
+                        f = {"key": "flaky", "message": "rapid could not reproduce a failure (schedule/time dependent): " + ctx[:3000]}
                 else:
                     f = {"key": "unkeyed", "message": ln.strip()[:3000]}
             # find the reproduction hint in the following lines
